@@ -84,6 +84,23 @@ type reply struct {
 	Rest  []byte // everything after the second separator
 	HasR  bool
 	OpIdx int // index into client.ops (-1: not attributable)
+	// Kept is the very slice the API handed to the send function (not copied), as a
+	// connection that queues replies for a writer goroutine keeps it. Raw is the copy
+	// taken at receipt. They must stay equal for as long as the reply is queued.
+	Kept []byte
+}
+
+// late returns the reply as a client behind a queueing connection gets it: parsed from
+// the kept slice at the time of asking (identical to r unless the memory was changed).
+func (r *reply) late() *reply {
+	if r.Kept == nil || bytes.Equal(r.Kept, r.Raw) {
+		return r
+	}
+	cp := make([]byte, len(r.Kept))
+	copy(cp, r.Kept)
+	n := parseReply(cp)
+	n.Seq, n.OpIdx, n.Kept = r.Seq, r.OpIdx, r.Kept
+	return &n
 }
 
 func (r *reply) String() string {
@@ -128,6 +145,38 @@ type opRec struct {
 	Established bool
 	Final       bool
 	idx         int
+	// first observed change of a reply after it had been handed to the send function
+	bufMod *bufModWitness
+	reqBuf []byte // the buffer Handle got (len = message, spare capacity behind it)
+}
+
+type bufModWitness struct {
+	Index    int    `json:"reply_index"`
+	AtSend   string `json:"reply_as_handed_to_send_function"`
+	Later    string `json:"same_slice_later"`
+	Observed string `json:"observed_when"`
+}
+
+const reqSpare = 192
+const canary = 0xA5
+
+// checkKept compares the kept slices of the op's last replies with their copies
+// (caller holds c.mu).
+func (op *opRec) checkKept(when string, lastN int) {
+	if op.bufMod != nil {
+		return
+	}
+	from := 0
+	if lastN > 0 && len(op.Replies) > lastN {
+		from = len(op.Replies) - lastN
+	}
+	for i := from; i < len(op.Replies); i++ {
+		r := op.Replies[i]
+		if r.Kept != nil && !bytes.Equal(r.Kept, r.Raw) {
+			op.bufMod = &bufModWitness{Index: i, AtSend: clip(string(r.Raw), 300), Later: clip(string(r.Kept), 300), Observed: when}
+			return
+		}
+	}
 }
 
 type client struct {
@@ -201,6 +250,7 @@ func (c *client) onSend(data []byte) {
 	cp := make([]byte, len(data))
 	copy(cp, data)
 	r := parseReply(cp)
+	r.Kept = data
 	r.Seq = c.e.tick()
 	c.e.jwrite("R", c.no, cp, "")
 	c.mu.Lock()
@@ -209,6 +259,8 @@ func (c *client) onSend(data []byte) {
 	}
 	if idx, ok := c.cur[r.OpID]; ok {
 		r.OpIdx = idx
+		// replies of this operation that are still "queued" must not have changed
+		c.ops[idx].checkKept("when the next reply of the operation was sent", 24)
 		c.ops[idx].Replies = append(c.ops[idx].Replies, &r)
 	} else if r.OpID == "" && c.malCur >= 0 {
 		// error reply of a malformed message: the API does not echo an ID
@@ -263,7 +315,26 @@ func (c *client) retire(op *opRec, quiescent bool) []finding {
 		c.mu.Unlock()
 		return nil
 	}
+	// ownership of reply memory: every reply as it is now (late parse), plus the
+	// monitor's own finding
+	op.checkKept("when the operation was decided", 0)
+	for i, r := range op.Replies {
+		op.Replies[i] = r.late()
+	}
+	if op.reqBuf != nil {
+		for _, b := range op.reqBuf[len(op.reqBuf):cap(op.reqBuf)] {
+			if b != canary {
+				c.e.b.Count("request_spare_capacity_written", 1)
+				break
+			}
+		}
+	}
 	fs := checkOp(op, quiescent)
+	if op.bufMod != nil {
+		fs = append(fs, finding{Sig: "C13:reply-buffer-modified-after-send:" + op.Kind,
+			What:   fmt.Sprintf("a reply changed after it had been handed to the send function (a connection that queues replies would deliver %q instead of %q)", clip(op.bufMod.Later, 120), clip(op.bufMod.AtSend, 120)),
+			Detail: opDetail(op, map[string]any{"modified_reply": op.bufMod})})
+	}
 	if quiescent && hasMissing(fs) {
 		// "something never arrived" rests on one observation of idleness: confirm it
 		// with further, later observations before it becomes a verdict (a reply that
@@ -290,7 +361,7 @@ func (c *client) retire(op *opRec, quiescent bool) []finding {
 		delete(c.cur, op.ID)
 	}
 	if len(fs) == 0 {
-		op.Replies, op.Msgs = nil, nil
+		op.Replies, op.Msgs, op.reqBuf = nil, nil, nil
 	}
 	return fs
 }
@@ -308,7 +379,27 @@ func hasMissing(fs []finding) bool {
 func (c *client) send(msg []byte, tag string) {
 	c.e.jwrite("S", c.no, msg, tag)
 	c.e.tick()
-	c.api.Handle(msg)
+	c.api.Handle(c.reqBuffer(msg))
+}
+
+// reqBuffer copies the message into a buffer with spare capacity behind it, as a
+// connection reader's buffer has (filled with a canary). The buffer is never reused:
+// the API keeps references into the message for as long as the operation lives (the
+// operation ID for every later reply, a payload as the data of the stored record).
+func (c *client) reqBuffer(msg []byte) []byte {
+	buf := make([]byte, len(msg)+reqSpare)
+	copy(buf, msg)
+	for i := len(msg); i < len(buf); i++ {
+		buf[i] = canary
+	}
+	buf = buf[:len(msg)]
+	c.mu.Lock()
+	if len(c.ops) > 0 {
+		// witness/diagnostic only: remember the buffer with the newest operation
+		c.ops[len(c.ops)-1].reqBuf = buf
+	}
+	c.mu.Unlock()
+	return buf
 }
 
 // request opens the op and sends "<id>|<cmd>|<args>".
@@ -371,7 +462,9 @@ func (c *client) snapshot(op *opRec) []*reply {
 	c.mu.Lock()
 	defer c.mu.Unlock()
 	out := make([]*reply, len(op.Replies))
-	copy(out, op.Replies)
+	for i, r := range op.Replies {
+		out[i] = r.late()
+	}
 	return out
 }
 
